@@ -17,7 +17,7 @@ PROPS = {
     "C03": {
         "level": "proof",
         "driver": "replay/c03.py",
-        "timeout": 20.0,
+        "timeout": 40.0,
         "trusted_base": TRUSTED_SOLVERS,
         "assumptions": A_COMMON + [
             "precondition (from the property's quantifier): prefixes are colon-free, non-empty for add_namespace and not '_'; names in a default namespace are bare local names; text given to the resolver does not start with ':'; an Identifier passed for resolution is a URI (contains ':')",
@@ -43,7 +43,7 @@ PROPS = {
     "C05": {
         "level": "proof",
         "driver": "replay/c05.py",
-        "timeout": 30.0,
+        "timeout": 60.0,
         "trusted_base": TRUSTED_SOLVERS + ["A4 dateutil.parser.parse (assumed contract ext:dateutil.parser.parse)"],
         "assumptions": A_COMMON + [
             "record state view as in C04 (QMap[VSet]); the size field of a python set is maintained by the only mutator model (vs_add) and is its cardinality in every reachable state",
